@@ -45,7 +45,8 @@ Definition chunk (b : bytes) : bytes := le8 (blen b) ++ b.
 Inductive arg :=
 | Arr (dt sh data : bytes)   (* ndarray: dtype.str, str(shape), C-order data *)
 | Oth (ty repr : bytes)      (* anything else: type(arg).__name__, str(arg) *)
-| Lst (l : list arg).        (* a Python list (of arrays, other things, lists) *)
+| Seq (k : bytes) (l : list arg).   (* list / tuple / dict (k1, v1, k2, v2, ... sorted)
+                                      / masked array (data, mask): kind tag, items *)
 
 Record sig := {
   s_pos : list arg;                 (* *args *)
@@ -57,6 +58,9 @@ Record sig := {
 
 Definition t_ndarray : bytes := [110; 100; 97; 114; 114; 97; 121].
 Definition t_list : bytes := [108; 105; 115; 116].
+Definition t_tuple : bytes := [116; 117; 112; 108; 101].
+Definition t_dict : bytes := [100; 105; 99; 116].
+Definition t_masked : bytes := [109; 97; 115; 107; 101; 100].
 Definition t_args : bytes := [97; 114; 103; 115].
 Definition t_kwargs : bytes := [107; 119; 97; 114; 103; 115].
 Definition t_str : bytes := [115; 116; 114].
@@ -66,7 +70,7 @@ Fixpoint old_arg (x : arg) : bytes :=
   match x with
   | Arr _ _ d => d
   | Oth _ r => r
-  | Lst l => flat_map old_arg l
+  | Seq _ l => flat_map old_arg l
   end.
 
 Definition key_old (c : sig) : bytes :=
@@ -79,7 +83,7 @@ Fixpoint toks_arg (x : arg) : list bytes :=
   match x with
   | Arr dt sh d => [t_ndarray; dt; sh; d]
   | Oth ty r => [ty; r]
-  | Lst l => [t_list; le8 (Z.of_nat (length l))] ++ flat_map toks_arg l
+  | Seq k l => [k; le8 (Z.of_nat (length l))] ++ flat_map toks_arg l
   end.
 
 Definition toks_kw (kv : bytes * arg) : list bytes :=
@@ -104,12 +108,15 @@ Fixpoint beqb (a b : bytes) : bool :=
 
 Definition small (b : bytes) : bool := blen b <? 2 ^ 64.
 
+Definition is_seq_kind (k : bytes) : bool :=
+  beqb k t_list || beqb k t_tuple || beqb k t_dict || beqb k t_masked.
+
 Fixpoint wf_arg (x : arg) : bool :=
   match x with
   | Arr dt sh d => small dt && small sh && small d
-  | Oth ty r => negb (beqb ty t_ndarray) && negb (beqb ty t_list)
+  | Oth ty r => negb (beqb ty t_ndarray) && negb (is_seq_kind ty)
                 && small ty && small r
-  | Lst l => forallb wf_arg l && (Z.of_nat (length l) <? 2 ^ 64)
+  | Seq k l => is_seq_kind k && forallb wf_arg l && (Z.of_nat (length l) <? 2 ^ 64)
   end.
 
 Definition wf_sig (c : sig) : bool :=
@@ -155,18 +162,18 @@ Section Memo.
   Variable key : A -> K.                (* md5 of the fed bytes *)
   Variable keqb : K -> K -> bool.
   Variable F : A -> V + E.              (* self.func( *args, **kwargs ) *)
-  Variable cap : Z.                     (* cached.MAX_SIZE *)
   Variable copy_out : bool.
 
   Record mstate := {
     m_keys : list K;                    (* Cache._keys *)
     m_cache : list (K * nat);           (* Cache._cache, insertion order *)
     m_heap : @heap V;
-    m_outs : list nat                   (* objects handed out so far *)
+    m_outs : list nat;                  (* objects handed out so far *)
+    m_cap : Z                           (* cached.MAX_SIZE (a module global) *)
   }.
 
-  Definition m_init : mstate :=
-    {| m_keys := []; m_cache := []; m_heap := []; m_outs := [] |}.
+  Definition m_init (cap : Z) : mstate :=
+    {| m_keys := []; m_cache := []; m_heap := []; m_outs := []; m_cap := cap |}.
 
   Fixpoint lookup (k : K) (c : list (K * nat)) : option nat :=
     match c with
@@ -183,7 +190,9 @@ Section Memo.
 
   Inductive mop :=
   | Call (a : A)
-  | Mut (j : nat) (f : V -> V).   (* modify in place the j-th returned object *)
+  | Mut (j : nat) (f : V -> V)    (* modify in place the j-th returned object *)
+  | Clear                         (* Cache.clear_cache() *)
+  | SetCap (c : Z).               (* cached.MAX_SIZE = c *)
 
   Inductive mout :=
   | MVal (hit : bool) (v : option V)   (* value of the returned object *)
@@ -207,7 +216,7 @@ Section Memo.
         | Some r =>
             let '(h1, r1) := hand_out (m_heap s) r in
             ({| m_keys := m_keys s; m_cache := m_cache s; m_heap := h1;
-                m_outs := m_outs s ++ [r1] |}, MVal true (hget h1 r1))
+                m_outs := m_outs s ++ [r1]; m_cap := m_cap s |}, MVal true (hget h1 r1))
         | None =>
             match F a with
             | inr e => (s, MExc e)
@@ -216,7 +225,7 @@ Section Memo.
                 let c1 := m_cache s ++ [(ref, r)] in
                 let k1 := m_keys s ++ [ref] in
                 let '(k2, c2) :=
-                  if cap <? Z.of_nat (length k1) then
+                  if m_cap s <? Z.of_nat (length k1) then
                     match k1 with
                     | delref :: k' => (k', remove_key delref c1)
                     | [] => (k1, c1)
@@ -224,7 +233,8 @@ Section Memo.
                   else (k1, c1) in
                 let '(h1, r1) := hand_out h0 r in
                 ({| m_keys := k2; m_cache := c2; m_heap := h1;
-                    m_outs := m_outs s ++ [r1] |}, MVal false (hget h1 r1))
+                    m_outs := m_outs s ++ [r1]; m_cap := m_cap s |},
+                 MVal false (hget h1 r1))
             end
         end
     | Mut j f =>
@@ -232,9 +242,15 @@ Section Memo.
         | Some r =>
             let '(h1, ok) := hmodify (m_heap s) r f in
             ({| m_keys := m_keys s; m_cache := m_cache s; m_heap := h1;
-                m_outs := m_outs s |}, MMut ok)
+                m_outs := m_outs s; m_cap := m_cap s |}, MMut ok)
         | None => (s, MMut false)
         end
+    | Clear =>
+        ({| m_keys := []; m_cache := []; m_heap := m_heap s; m_outs := m_outs s;
+            m_cap := m_cap s |}, MMut true)
+    | SetCap c =>
+        ({| m_keys := m_keys s; m_cache := m_cache s; m_heap := m_heap s;
+            m_outs := m_outs s; m_cap := c |}, MMut true)
     end.
 
   Fixpoint mrun (s : mstate) (ops : list mop) : mstate * list mout :=
@@ -253,6 +269,8 @@ Section Memo.
     match o with
     | Call a => match F a with inl v => SVal v | inr e => SExc e end
     | Mut _ _ => SNone
+    | Clear => SNone
+    | SetCap _ => SNone
     end.
 
   Definition obs (o : mout) : option sout :=
@@ -268,6 +286,9 @@ Arguments m_keys {K V} _.
 Arguments m_cache {K V} _.
 Arguments m_heap {K V} _.
 Arguments m_outs {K V} _.
+Arguments m_cap {K V} _.
+Arguments Clear {A V}.
+Arguments SetCap {A V} c.
 Arguments Call {A V} a.
 Arguments Mut {A V} j f.
 Arguments MVal {V E} hit v.
@@ -720,25 +741,33 @@ End ObjCache.
 (* ====================================================================== *)
 
 (* --- F1: Cache ---------------------------------------------------------- *)
-(* pool entry: (tag, b1, b2, b3): tag 0 = Arr b1 b2 b3, else Oth b1 b2 *)
-Definition dec_atom (t : Z * bytes * bytes * bytes) : arg :=
-  let '(tag, b1, b2, b3) := t in
-  if tag =? 0 then Arr b1 b2 b3 else Oth b1 b2.
+(* pool entry: (tag, b1, b2, segs): tag 0 = Arr b1 b2 b3, else Oth b1 b2, where
+   b3 is given run-length encoded: segments (k, pattern) = pattern repeated k
+   times (large arrays would not fit a literal) *)
+Definition expand (segs : list (Z * bytes)) : bytes :=
+  flat_map (fun kp => concat (repeat (snd kp) (Z.to_nat (fst kp)))) segs.
+
+Definition dec_atom (t : Z * bytes * bytes * list (Z * bytes)) : arg :=
+  let '(tag, b1, b2, segs) := t in
+  if tag =? 0 then Arr b1 b2 (expand segs) else Oth b1 b2.
 
 Definition nth_atom (pool : list arg) (i : Z) : arg :=
   nth (Z.to_nat i) pool (Oth [] []).
 
 (* argument: TA i = pool[i]; TL [...] = Python list *)
-Inductive targ := TA (i : Z) | TL (l : list targ).
+Inductive targ := TA (i : Z) | TL (kind : Z) (l : list targ).
+
+Definition seq_kind (k : Z) : bytes :=
+  if k =? 0 then t_list else if k =? 1 then t_tuple else if k =? 2 then t_dict else t_masked.
 
 Fixpoint dec_arg (pool : list arg) (t : targ) : arg :=
   match t with
   | TA i => nth_atom pool i
-  | TL l => Lst (map (dec_arg pool) l)
+  | TL k l => Seq (seq_kind k) (map (dec_arg pool) l)
   end.
 
 Definition atom_repr (a : arg) : bytes :=
-  match a with Arr _ _ d => d | Oth _ r => r | Lst _ => [] end.
+  match a with Arr _ _ d => d | Oth _ r => r | Seq _ _ => [] end.
 
 (* call: (func = (name, doc, file) pool indices, args, kwargs (name index,
    arg), fv = code of the fresh result (>= 0 value id, < 0 exception)) *)
@@ -761,7 +790,9 @@ Definition F_flat (a : sig * Z) : Z + Z :=
 Definition dec_cop (pool : list arg) (o : cop) : mop (sig * Z) Z :=
   let '(tag, c, j) := o in
   if tag =? 0 then Call (dec_sig pool c)
-  else Mut (Z.to_nat j) (fun v => -1 - v).
+  else if tag =? 1 then Mut (Z.to_nat j) (fun v => -1 - v)
+  else if tag =? 2 then Clear
+  else SetCap j.
 
 Definition enc_mout (fv : Z) (o : mout Z Z) : list Z :=
   match o with
@@ -774,18 +805,18 @@ Definition enc_mout (fv : Z) (o : mout Z Z) : list Z :=
 Definition cop_fv (o : cop) : Z := let '(_, c, _) := o in let '(_, _, _, fv) := c in fv.
 
 (* case = (newkey, copy_out, MAX_SIZE, pool, ops) *)
-Definition cache_flat (case : Z * Z * Z * list (Z * bytes * bytes * bytes) * list cop)
+Definition cache_flat (case : Z * Z * Z * list (Z * bytes * bytes * list (Z * bytes)) * list cop)
   : list Z :=
   let '(newkey, cpy, cap, pool0, ops) := case in
   let pool := map dec_atom pool0 in
   let key := fun a : sig * Z => if newkey =? 0 then key_old (fst a) else key_new (fst a) in
-  let outs := snd (mrun (sig * Z) bytes Z Z key beqb F_flat cap (negb (cpy =? 0))
-                        (m_init bytes Z) (map (dec_cop pool) ops)) in
+  let outs := snd (mrun (sig * Z) bytes Z Z key beqb F_flat (negb (cpy =? 0))
+                        (m_init bytes Z cap) (map (dec_cop pool) ops)) in
   flat_map (fun p => enc_mout (cop_fv (fst p)) (snd p)) (combine ops outs).
 
 (* the bytes fed to md5 for the first call of a case (compared with the bytes
    the implementation feeds to hashlib.md5) *)
-Definition key_flat (case : Z * Z * Z * list (Z * bytes * bytes * bytes) * list cop)
+Definition key_flat (case : Z * Z * Z * list (Z * bytes * bytes * list (Z * bytes)) * list cop)
   : list Z :=
   let '(newkey, cpy, cap, pool0, ops) := case in
   match ops with
@@ -916,11 +947,10 @@ Fixpoint layout (o : pobj) : lay :=
    md5 of the concatenation, i.e. of obj2bytes (PSeq items) *)
 Definition anc_key (items : list pobj) : bytes := obj2bytes (PSeq items).
 
-(* LazyContourList.identifier: unrepaired = the bytes of the first mask only;
-   repaired = all masks (ndarray) / the identifier of the file-based masks *)
+(* LazyContourList.identifier before e54bde9: the bytes of the first mask only
+   (documents the repaired defect; the repaired identifier is md5 of all masks
+   and falls under obj2bytes of a string) *)
 Definition lcl_ident_old (masks : list bytes) : bytes := hd [] masks.
-Definition lcl_ident_new (masks : list bytes) : pobj := PArr [] [] (concat masks).
-
 (* RTDCBase._ancillaries[feat] = (hash, data): one entry per feature; the
    cached data are used when the hash equals the stored one. This is the
    memo table of part B with capacity 1. *)
@@ -988,3 +1018,16 @@ Arguments u_obj {D W} _.
 Arguments UParent {D} d.
 Arguments URejuvenate {D}.
 Arguments UAttr {D} k.
+
+(* --- F5: ufunc caches (harness kind "ufunc": the child's scalar feature) ----- *)
+Definition dec_uop (t : Z * Z) : uop Z :=
+  let '(tag, a) := t in
+  if tag =? 0 then UParent a else if tag =? 1 then URejuvenate else UAttr a.
+
+(* case = (initial data version, ops); result: for every summary request the
+   code 10 * (version of the data it reflects) + (which summary) *)
+Definition ufunc_flat (case : Z * list (Z * Z)) : list Z :=
+  let '(v0, ops) := case in
+  flat_map (fun o => match o with Some w => [w] | None => [] end)
+           (urun Z Z (fun k d => d * 10 + k) {| u_parent := v0; u_obj := None |}
+                 (map dec_uop ops)).
